@@ -55,3 +55,35 @@ Print Assumptions C03_rewrite_lines_every_match_written.
 Theorem C03_ex_occurrences : let sp := spans_on (iter_matches [ex_line] [ex_pA; ex_pB]) 0 in sp = [(2, 5, cp_repl ex_pA); (8, 10, cp_repl ex_pB)] /\ spans_wf 0 (length ex_line) sp /\ out_pos 0 sp 0 = 2 /\ out_pos 0 sp 1 = 10 /\ firstn (length (cp_repl ex_pA)) (skipn 2 ex_new_line) = cp_repl ex_pA /\ firstn (length (cp_repl ex_pB)) (skipn 10 ex_new_line) = cp_repl ex_pB /\ replace_spans ex_line 0 sp = ex_new_line /\ length ex_new_line + sum_cut sp = length ex_line + sum_repl sp.
 Proof. exact ex_occurrences. Qed.
 Print Assumptions C03_ex_occurrences.
+
+(* ---- Proofs.RewriteCompleteFacts ---- *)
+From Coq Require Import List Bool NArith ZArith Arith.
+From BV Require Import Lib.PyStr Model.Rewrite Proofs.RewriteFacts Proofs.RewriteCompleteFacts.
+Import ListNotations.
+Theorem C03_has_overlap_spec : forall (m : pmatch) (spans : list (nat * nat * nat)), has_overlap m spans = true <-> (exists ln s e : nat, In (ln, s, e) spans /\ ln = pm_line m /\ pm_start m <= e /\ s <= pm_end m).
+Proof. exact has_overlap_spec. Qed.
+Print Assumptions C03_has_overlap_spec.
+
+Theorem C03_iter_matches_yield_iff : forall (lines : list (list N)) (pats : list cpat) (m : pmatch), In m (iter_matches lines pats) <-> (exists pre post : list pmatch, candidates lines pats = pre ++ m :: post /\ (forall c : pmatch, In c pre -> pm_line c = pm_line m -> pm_end c < pm_start m \/ pm_end m < pm_start c)).
+Proof. exact iter_matches_yield_iff. Qed.
+Print Assumptions C03_iter_matches_yield_iff.
+
+Theorem C03_iter_matches_complete : forall (lines : list (list N)) (pats : list cpat) (p : cpat) (i a b : nat), In p pats -> i < length lines -> cp_search p (nth i lines []) = Some (a, b) -> a < b -> exists pre post : list pmatch, candidates lines pats = pre ++ {| pm_pat := p; pm_line := i; pm_start := a; pm_end := b |} :: post /\ (In {| pm_pat := p; pm_line := i; pm_start := a; pm_end := b |} (iter_matches lines pats) \/ (exists c : pmatch, In c pre /\ pm_line c = i /\ a <= pm_end c /\ pm_start c <= b)).
+Proof. exact iter_matches_complete. Qed.
+Print Assumptions C03_iter_matches_complete.
+
+Theorem C03_iter_matches_first_pattern_complete : forall (lines : list (list N)) (p0 : cpat) (rest : list cpat) (i a b : nat), i < length lines -> cp_search p0 (nth i lines []) = Some (a, b) -> a < b -> In {| pm_pat := p0; pm_line := i; pm_start := a; pm_end := b |} (iter_matches lines (p0 :: rest)).
+Proof. exact iter_matches_first_pattern_complete. Qed.
+Print Assumptions C03_iter_matches_first_pattern_complete.
+
+Theorem C03_iter_matches_apart_complete : forall (lines : list (list N)) (pats : list cpat) (p : cpat) (i a b : nat), In p pats -> i < length lines -> cp_search p (nth i lines []) = Some (a, b) -> a < b -> (forall c : pmatch, In c (candidates lines pats) -> pm_line c = i -> (pm_end c < a \/ b < pm_start c) \/ pm_start c = a /\ pm_end c = b /\ pm_pat c = p) -> In {| pm_pat := p; pm_line := i; pm_start := a; pm_end := b |} (iter_matches lines pats).
+Proof. exact iter_matches_apart_complete. Qed.
+Print Assumptions C03_iter_matches_apart_complete.
+
+Theorem C03_later_pattern_left_is_yielded : map span_of (candidates [ex_line] [ex_pB; ex_pA]) = [(0, 8, 10); (0, 2, 5)] /\ map span_of (iter_matches [ex_line] [ex_pB; ex_pA]) = [(0, 8, 10); (0, 2, 5)] /\ map (fun m : pmatch => cp_id (pm_pat m)) (iter_matches [ex_line] [ex_pB; ex_pA]) = [cp_id ex_pB; cp_id ex_pA] /\ rewrite_lines [ex_pB; ex_pA] [ex_line] = RwOk [ex_new_line].
+Proof. exact later_pattern_left_is_yielded. Qed.
+Print Assumptions C03_later_pattern_left_is_yielded.
+
+Theorem C03_touching_match_is_dropped : map span_of (candidates [ex_touch_line] [ex_pA; ex_pB]) = [(0, 0, 3); (0, 3, 5)] /\ map span_of (iter_matches [ex_touch_line] [ex_pA; ex_pB]) = [(0, 0, 3)] /\ map span_of (iter_matches [ex_touch_line] [ex_pB; ex_pA]) = [(0, 3, 5)] /\ rewrite_lines [ex_pA; ex_pB] [ex_touch_line] = RwGreedy.
+Proof. exact touching_match_is_dropped. Qed.
+Print Assumptions C03_touching_match_is_dropped.
